@@ -622,6 +622,47 @@ fn main() {
                         }
                         println!("step{}=scan:{}", n, out.join(","));
                     }
+                    "U" => {
+                        // U<op.op.op>:<targethex>[@snap] : cursor pattern on a fresh iterator
+                        let spec = arg.split('@').next().unwrap();
+                        let sp: Vec<&str> = spec.split(':').collect();
+                        let target = hex(sp[1]);
+                        let mut it = d.new_iterator(ro(&snaps, arg)).expect("iterator");
+                        let mut out = vec![];
+                        for o in sp[0].split('.') {
+                            match o {
+                                "first" => {
+                                    let _ = it.seek_to_first();
+                                }
+                                "last" => {
+                                    let _ = it.seek_to_last();
+                                }
+                                "seek" => {
+                                    let _ = it.seek(&target);
+                                }
+                                "next" => {
+                                    if !it.is_valid() {
+                                        break;
+                                    }
+                                    it.next();
+                                }
+                                "prev" => {
+                                    if !it.is_valid() {
+                                        break;
+                                    }
+                                    it.prev();
+                                }
+                                _ => panic!("bad cursor op"),
+                            }
+                            out.push(if it.is_valid() {
+                                let (k, val) = it.current().unwrap();
+                                format!("{}:{}", tohex(k), tohex(val))
+                            } else {
+                                "none".to_string()
+                            });
+                        }
+                        println!("step{}=cursor:{}", n, out.join(","));
+                    }
                     "T" => {
                         let r = d.get_descriptor(raindb::db::DatabaseDescriptor::SSTables).unwrap_or_default();
                         println!("step{}=layout:{}", n, r.replace('\n', ";").replace('=', ":"));
